@@ -6,7 +6,7 @@ handler) and `handler_modern.go` (1.20.3+), with the shared helpers of `handler.
 Each handler is a state machine `step : State → Op → State × Ret`; the handler's `sync.RWMutex` is explicit
 state (`held`): an entry point that finds it held returns `deadlock` (a non-reentrant lock re-acquired by its
 holder never returns), `remove` on a legacy handler and a dereferenced nil are `panic`.  Everything the handler
-does to the outside is appended to `log` in program order: request packets written to the player (`prompt`),
+does to the outside is returned, per call, as a list of observations in program order: request packets written to the player (`prompt`),
 response packets written to the in-flight backend (`report`), status events fired (`fired`; `auto` marks the
 DECLINED response the handler synthesises when it flushes the queue) and forced-pack kicks (`kick`).
 
@@ -44,10 +44,10 @@ structure Pack where
   deriving DecidableEq, Repr
 
 inductive Obs where
-  | prompt (seq : Nat)                                               -- request packet written to the player
-  | report (s : Status) (id hash : Nat)                              -- response packet written to the backend
-  | fired (s : Status) (pack : Option Nat) (auto : Bool)                 -- PlayerResourcePackStatusEvent (its pack)
-  | kick                                                             -- Disconnect(requiredTexturePrompt.disconnect)
+  | prompt (p : Pack)                                     -- request packet for pack p written to the player
+  | report (s : Status) (id hash : Nat)                   -- response packet written to the backend
+  | fired (s : Status) (p : Option Pack) (auto : Bool)    -- PlayerResourcePackStatusEvent for pack p
+  | kick                                                  -- Disconnect(requiredTexturePrompt.disconnect)
   deriving DecidableEq, Repr
 
 inductive Ret where
@@ -84,101 +84,107 @@ structure LSt where
   applied : Option Pack := none
   backend : Bool := false
   held    : Bool := false            -- the handler's mutex
-  log     : List Obs := []
   deriving DecidableEq, Repr
 
-def LSt.emit (st : LSt) (os : List Obs) : LSt := { st with log := st.log ++ os }
+/-- the state update of `handleResponse` -/
+def updateL (st : LSt) (s : Status) (q : Option Pack) : LSt :=
+  match s with
+  | .accepted => { st with prev := some true, pending := q }
+  | .declined => { st with prev := some false }
+  | .successful => { st with applied := q, pending := none }
+  | .failedDownload => { st with pending := none }
+  | .discarded =>
+    match q, st.applied with
+    | some p, some a => if p.id ≠ 0 ∧ a.id = p.id then { st with applied := none } else st
+    | _, _ => st
+  | _ => st
 
-/-- `handleResponse` (lock held): take the pack the response is for, fire the event, update, tell the backend -/
-def handleResponse (st : LSt) (s : Status) (bid bhash : Nat) (auto : Bool) : LSt × Bool :=
+/-- `handleResponse` (lock held): take the pack the response is for, fire the event, update, tell the backend.
+    Returns the new state, what was emitted, and `handled`. -/
+def handleResponse (st : LSt) (s : Status) (bid bhash : Nat) (auto : Bool) : LSt × List Obs × Bool :=
   let q := st.queue.head?
-  let st := if s.intermediate then st else { st with queue := st.queue.tail }
-  let ev : List Obs := [.fired s (q.map (·.seq)) auto]
-  let kick : List Obs :=
-    if decide (s = .declined) && forceOf q then [.kick] else []
-  let st : LSt :=
-    match s with
-    | .accepted => { st with prev := some true, pending := q }
-    | .declined => { st with prev := some false }
-    | .successful => { st with applied := q, pending := none }
-    | .failedDownload => { st with pending := none }
-    | .discarded =>
-      match q, st.applied with
-      | some p, some a => if p.id ≠ 0 ∧ a.id = p.id then { st with applied := none } else st
-      | _, _ => st
-    | _ => st
-  (st.emit (ev ++ kick ++ reportOf st.backend q s bid bhash), handledOf q)
+  let st' := if s.intermediate then st else { st with queue := st.queue.tail }
+  (updateL st' s q,
+   [.fired s q auto] ++ (if decide (s = .declined) && forceOf q then [.kick] else []) ++
+     reportOf st.backend q s bid bhash,
+   handledOf q)
 
 /-- the flush loop of `tickResourcePackQueue` (the client declined before): decline everything up to the first
     forced pack of a 1.17+ client, which is prompted anyway -/
-def declineLoop (is117 : Bool) : Nat → LSt → LSt
-  | 0, st => st
+def declineLoop (is117 : Bool) : Nat → LSt → LSt × List Obs
+  | 0, st => (st, [])
   | fuel + 1, st =>
     match st.queue with
-    | [] => st
+    | [] => (st, [])
     | q :: _ =>
-      if q.force && is117 then st.emit [.prompt q.seq]
-      else declineLoop is117 fuel (handleResponse st .declined q.id q.hash true).1
+      if q.force && is117 then (st, [.prompt q])
+      else
+        let r := handleResponse st .declined q.id q.hash true
+        let r' := declineLoop is117 fuel r.1
+        (r'.1, r.2.1 ++ r'.2)
 
 /-- `tickResourcePackQueue` (lock held) -/
-def tick (is117 : Bool) (st : LSt) : LSt :=
+def tick (is117 : Bool) (st : LSt) : LSt × List Obs :=
   match st.queue with
-  | [] => st
+  | [] => (st, [])
   | q :: _ =>
     if st.prev = some false then declineLoop is117 st.queue.length st
-    else st.emit [.prompt q.seq]
+    else (st, [.prompt q])
 
 /-- an entry point: `h.Lock(); defer h.Unlock()` -/
-def withLockL (st : LSt) (body : LSt → LSt × Bool) : LSt × Ret :=
-  if st.held then (st, .deadlock)
+def withLockL (st : LSt) (body : LSt → LSt × List Obs × Bool) : LSt × Ret × List Obs :=
+  if st.held then (st, .deadlock, [])
   else
     let r := body { st with held := true }
-    ({ r.1 with held := false }, .ok r.2)
+    ({ r.1 with held := false }, .ok r.2.2, r.2.1)
 
 /-- the repaired legacy handler; `is117` = the client is 1.17+ (`legacy117Handler`) -/
-def stepL (is117 : Bool) (st : LSt) : Op → LSt × Ret
+def stepL (is117 : Bool) (st : LSt) : Op → LSt × Ret × List Obs
   | .queue p => withLockL st fun st =>
       let st := { st with queue := st.queue ++ [p] }
-      (if st.queue.length = 1 then tick is117 st else st, false)
+      if st.queue.length = 1 then let t := tick is117 st; (t.1, t.2, false) else (st, [], false)
   | .response s id hash => withLockL st fun st =>
       let r := handleResponse st s id hash false
-      (if s.intermediate then r.1 else tick is117 r.1, r.2)
-  | .clear => withLockL st fun st => ({ st with applied := none }, false)
-  | .remove _ => (st, .panic)      -- "Cannot remove a ResourcePack from a legacy client" (Velocity throws too)
-  | .backend b => ({ st with backend := b }, .ok false)
+      if s.intermediate then r
+      else let t := tick is117 r.1; (t.1, r.2.1 ++ t.2, r.2.2)
+  | .clear => withLockL st fun st => ({ st with applied := none }, [], false)
+  | .remove _ => (st, .panic, [])   -- "Cannot remove a ResourcePack from a legacy client" (Velocity throws too)
+  | .backend b => ({ st with backend := b }, .ok false, [])
 
 /-- The legacy handler AS FOUND: `QueueResourcePack` and `onResourcePackResponse` call
     `tickResourcePackQueue` with the mutex held and `tickResourcePackQueue` locks it again; a response with an
     empty queue dereferences nil (`*queued`, `PopFront` on an empty deque). -/
-def stepLDefective (st : LSt) : Op → LSt × Ret
+def stepLDefective (st : LSt) : Op → LSt × Ret × List Obs
   | .queue p =>
-    if st.held then (st, .deadlock) else
+    if st.held then (st, .deadlock, []) else
     let st := { st with queue := st.queue ++ [p], held := true }
-    if st.queue.length = 1 then (st, .deadlock)          -- tickResourcePackQueue: h.Lock() again
-    else ({ st with held := false }, .ok false)
+    if st.queue.length = 1 then (st, .deadlock, [])          -- tickResourcePackQueue: h.Lock() again
+    else ({ st with held := false }, .ok false, [])
   | .response s id hash =>
-    if st.held then (st, .deadlock) else
+    if st.held then (st, .deadlock, []) else
     match st.queue.head? with
-    | none => ({ st with held := true }, .panic)          -- PopFront on empty deque / *queued with queued == nil
-    | some _ =>
+    | none => (st, .panic, [])      -- PopFront on an empty deque / *queued with queued == nil (lock released by defer)
+    | some q =>
       let st := { st with held := true }
-      if s.intermediate then
-        let r := handleResponse st s id hash false
-        ({ r.1 with held := false }, .ok r.2)
+      let r := handleResponse st s id hash false
+      if s.intermediate then ({ r.1 with held := false }, .ok r.2.2, r.2.1)
       else
-        -- event + state update happen, then tickResourcePackQueue locks again: nothing is reported
-        let r := handleResponse { st with backend := false } s id hash false
-        ({ r.1 with backend := st.backend }, .deadlock)
-  | .clear => if st.held then (st, .deadlock) else ({ st with applied := none }, .ok false)
-  | .remove _ => (st, .panic)
-  | .backend b => ({ st with backend := b }, .ok false)
+        -- event + state update happen, then tickResourcePackQueue locks again: the backend is never told
+        (r.1, .deadlock, [.fired s (some q) false] ++ (if decide (s = .declined) && q.force then [.kick] else []))
+  | .clear => if st.held then (st, .deadlock, []) else ({ st with applied := none }, .ok false, [])
+  | .remove _ => (st, .panic, [])
+  | .backend b => ({ st with backend := b }, .ok false, [])
 
 /-- the state the code as found starts in: `prevResourceResponse bool` is `false`, i.e. "declined" -/
 def initPrevFalse : LSt := { prev := some false }
 
-def runL (is117 : Bool) : LSt → List Op → LSt
-  | st, [] => st
-  | st, op :: ops => runL is117 (stepL is117 st op).1 ops
+/-- run a history: final state and, per operation, its result and what it emitted -/
+def runL (is117 : Bool) : LSt → List Op → LSt × List (Op × Ret × List Obs)
+  | st, [] => (st, [])
+  | st, op :: ops =>
+    let r := stepL is117 st op
+    let rest := runL is117 r.1 ops
+    (rest.1, (op, r.2.1, r.2.2) :: rest.2)
 
 /-! ### modern handler (1.20.3+) -/
 
@@ -201,64 +207,85 @@ structure MSt where
   applied     : List (Nat × Pack) := []
   backend     : Bool := false
   held        : Bool := false
-  log         : List Obs := []
   deriving DecidableEq, Repr
 
-def MSt.emit (st : MSt) (os : List Obs) : MSt := { st with log := st.log ++ os }
 def MSt.out (st : MSt) (id : Nat) : List Pack := (getL id st.outstanding).getD []
 def MSt.setOut (st : MSt) (id : Nat) (l : List Pack) : MSt :=
   { st with outstanding := if l.isEmpty then eraseL id st.outstanding else setL id l st.outstanding }
 
 /-- `tickResourcePackQueue(id)`: prompt the first outstanding pack of that id (takes no lock it could block on) -/
-def tickM (st : MSt) (id : Nat) : MSt :=
+def tickM (st : MSt) (id : Nat) : List Obs :=
   match st.out id with
-  | [] => st
-  | p :: _ => st.emit [.prompt p.seq]
+  | [] => []
+  | p :: _ => [.prompt p]
 
-def withLockM (st : MSt) (body : MSt → MSt × Bool) : MSt × Ret :=
-  if st.held then (st, .deadlock)
+def withLockM (st : MSt) (body : MSt → MSt × List Obs × Bool) : MSt × Ret × List Obs :=
+  if st.held then (st, .deadlock, [])
   else
     let r := body { st with held := true }
-    ({ r.1 with held := false }, .ok r.2)
+    ({ r.1 with held := false }, .ok r.2.2, r.2.1)
 
-def stepM (st : MSt) : Op → MSt × Ret
+/-- the state update of the modern `OnResourcePackResponse` (all but the early-return case) -/
+def updateM (st : MSt) (s : Status) (id : Nat) (q : Option Pack) : MSt :=
+  match s with
+  | .accepted => (match q with | some p => { st with pending := setL id p st.pending } | none => st)
+  | .successful =>
+    let st := { st with pending := eraseL id st.pending }
+    (match q with | some p => { st with applied := setL id p st.applied } | none => st)
+  | .discarded => { st with pending := eraseL id st.pending, applied := eraseL id st.applied }
+  | _ => st
+
+/-- the SUCCESSFUL special case: a repeated SUCCESSFUL for an untracked but applied pack returns early through it -/
+def earlyM (s : Status) (q a : Option Pack) : Option Pack :=
+  if s = .successful ∧ q = none then a else none
+
+/-- a final response removes the head of that id's list (`multimap.Remove`) -/
+def popM (st : MSt) (s : Status) (id : Nat) : MSt :=
+  if s.intermediate then st else st.setOut id (swapRemoveHead (st.out id))
+
+/-- the event (and forced-pack kick) of the modern handler: only for a tracked pack -/
+def eventsM (s : Status) (q : Option Pack) : List Obs :=
+  match q with
+  | none => []
+  | some p => [.fired s (some p) false] ++ (if decide (s = .declined) && p.force then [.kick] else [])
+
+/-- the state after the modern `OnResourcePackResponse` -/
+def respondStM (st : MSt) (s : Status) (id : Nat) : MSt :=
+  let q := (st.out id).head?
+  let st1 := popM st s id
+  match earlyM s q (getL id st1.applied) with
+  | some _ => { st1 with pending := eraseL id st1.pending }
+  | none => updateM st1 s id q
+
+/-- the body of the modern `OnResourcePackResponse` (lock held) -/
+def respondM (st : MSt) (s : Status) (id hash : Nat) : MSt × List Obs × Bool :=
+  let q := (st.out id).head?
+  let st1 := popM st s id
+  let st2 := respondStM st s id
+  match earlyM s q (getL id st1.applied) with
+  | some a => (st2, eventsM s q ++ reportOf st1.backend (some a) s id hash, handledOf (some a))
+  | none =>
+    (st2, eventsM s q ++ (if s.intermediate then [] else tickM st2 id) ++ reportOf st2.backend q s id hash, handledOf q)
+
+def stepM (st : MSt) : Op → MSt × Ret × List Obs
   | .queue p =>
     -- Lock; Put; Unlock; then tick outside the lock
-    if st.held then (st, .deadlock) else
+    if st.held then (st, .deadlock, []) else
     let st := st.setOut p.id (st.out p.id ++ [p])
-    (if (st.out p.id).length = 1 then tickM st p.id else st, .ok false)
-  | .response s id hash => withLockM st fun st =>
-    let l := st.out id
-    let q := l.head?
-    let st := if s.intermediate then st else st.setOut id (swapRemoveHead l)
-    let st := match q with
-      | none => st
-      | some p => st.emit ([.fired s (some p.seq) false] ++
-                    (if decide (s = .declined) && p.force then [.kick] else []))
-    -- the SUCCESSFUL special case returns early through the applied pack
-    match s, q, getL id st.applied with
-    | .successful, none, some a =>
-      let st := { st with pending := eraseL id st.pending }
-      (st.emit (reportOf st.backend (some a) s id hash), handledOf (some a))
-    | _, _, _ =>
-      let st : MSt := match s with
-        | .accepted => (match q with | some p => { st with pending := setL id p st.pending } | none => st)
-        | .successful =>
-          let st := { st with pending := eraseL id st.pending }
-          (match q with | some p => { st with applied := setL id p st.applied } | none => st)
-        | .discarded => { st with pending := eraseL id st.pending, applied := eraseL id st.applied }
-        | _ => st
-      let st := if s.intermediate then st else tickM st id
-      (st.emit (reportOf st.backend q s id hash), handledOf q)
-  | .clear => withLockM st fun st => ({ st with outstanding := [], pending := [], applied := [] }, false)
+    (st, .ok false, if (st.out p.id).length = 1 then tickM st p.id else [])
+  | .response s id hash => withLockM st fun st => respondM st s id hash
+  | .clear => withLockM st fun st => ({ st with outstanding := [], pending := [], applied := [] }, [], false)
   | .remove id => withLockM st fun st =>
       let had := (getL id st.applied).isSome || (getL id st.pending).isSome
       ({ st with outstanding := eraseL id st.outstanding, pending := eraseL id st.pending,
-                 applied := eraseL id st.applied }, had)
-  | .backend b => ({ st with backend := b }, .ok false)
+                 applied := eraseL id st.applied }, [], had)
+  | .backend b => ({ st with backend := b }, .ok false, [])
 
-def runM : MSt → List Op → MSt
-  | st, [] => st
-  | st, op :: ops => runM (stepM st op).1 ops
+def runM : MSt → List Op → MSt × List (Op × Ret × List Obs)
+  | st, [] => (st, [])
+  | st, op :: ops =>
+    let r := stepM st op
+    let rest := runM r.1 ops
+    (rest.1, (op, r.2.1, r.2.2) :: rest.2)
 
 end Gate.C27
